@@ -33,32 +33,30 @@ Proof. vm_compute. reflexivity. Qed.
 (* ---- every macro error literal, in each stage it can be raised in *)
 Definition lit_entry (x : string * stage * string) : stage * string := (snd (fst x), snd x).
 
-(* SPEC (a handler in every stage that executes SQL): each literal becomes a VTL error with a catalogued code *)
+(* FAITHFUL (current code): each literal, in every stage it can be raised in, becomes a VTL error with a catalogued code *)
+Theorem C32_mapped_macro_errors_impl :
+  forall site s msg, In (site, s, msg) macro_lits ->
+  exists k c, apply_mapper (stage_mapper_impl s) (RawDB msg) = VTL k c /\ cat_lookup c catalogue <> None.
+Proof. apply lits_all_ok. vm_compute. reflexivity. Qed.
+
+(* SPEC (a handler in every stage that executes SQL): the same *)
 Theorem C32_mapped_macro_errors_spec :
   forall site s msg, In (site, s, msg) macro_lits ->
   exists k c, apply_mapper (stage_mapper_spec s) (RawDB msg) = VTL k c /\ cat_lookup c catalogue <> None.
 Proof. apply lits_all_ok. vm_compute. reflexivity. Qed.
 
-(* FAITHFUL, partial: wherever the code has a handler around the stage, every literal other than the 2-1-19-21 one
-   (vtl_period_to_sdmx_gregorian, for which _map_query_error has no rule) becomes a catalogued VTL error *)
-Definition no_rule_literal (msg : string) : bool := contains "2-1-19-21" msg.
-
-Theorem C32_mapped_macro_errors_impl_partial :
-  forall site s msg, In (site, s, msg) macro_lits -> stage_mapper_impl s <> NoMap -> no_rule_literal msg = false ->
-  exists k c, apply_mapper (stage_mapper_impl s) (RawDB msg) = VTL k c /\ cat_lookup c catalogue <> None.
-Proof. apply lits_handled_ok. vm_compute. reflexivity. Qed.
-
-(* FAITHFUL, refuted: a macro literal raised by statement execution (a handled stage) for which the mapper has no rule *)
-Theorem C32_mapped_macro_errors_impl_norule_refuted :
-  exists site s msg, In (site, s, msg) macro_lits /\ stage_mapper_impl s <> NoMap /\
-                     is_vtl (apply_mapper (stage_mapper_impl s) (RawDB msg)) = false.
-Proof. apply lits_norule. vm_compute. reflexivity. Qed.
-
-(* FAITHFUL, refuted: a macro literal is raised in a stage that has no handler, and leaves run() as a raw DuckDB error *)
-Theorem C32_mapped_macro_errors_impl_refuted :
-  exists site s msg, In (site, s, msg) macro_lits /\ stage_mapper_impl s = NoMap /\
-                     apply_mapper (stage_mapper_impl s) (RawDB msg) = RawDB msg.
+(* REGRESSION WITNESSES, behaviour BEFORE the fix (commit f47d60e): a macro literal raised in a stage that had no handler
+   left run() as a raw DuckDB error ... *)
+Theorem C32_mapped_macro_errors_before_fix_refuted :
+  exists site s msg, In (site, s, msg) macro_lits /\ stage_mapper_before_fix s = NoMap /\
+                     apply_mapper (stage_mapper_before_fix s) (RawDB msg) = RawDB msg.
 Proof. apply lits_escape. vm_compute. reflexivity. Qed.
+
+(* ... and one raised by statement execution (a handled stage) had no rule in the old mapper *)
+Theorem C32_mapped_macro_errors_before_fix_norule_refuted :
+  exists site s msg, In (site, s, msg) macro_lits /\ stage_mapper_before_fix s <> NoMap /\
+                     is_vtl (apply_mapper (stage_mapper_before_fix s) (RawDB msg)) = false.
+Proof. apply lits_norule. vm_compute. reflexivity. Qed.
 
 (* ---- the general theorem: any program of stages, handlers and finally-blocks (unbounded size) *)
 Theorem C32_escape_closed :
@@ -74,6 +72,25 @@ Theorem C32_run_closed :
   forall stmts final e, exec R (run_prog M stmts final) (Raise e) -> is_vtl e = true.
 Proof. exact run_closed. Qed.
 
+(* FAITHFUL: in every stage that has a handler today (statement execution, the whole fetch path, insert / normalise of the
+   loader) ANY DuckDB error message whatsoever becomes a VTL error: the handlers are total *)
+Theorem C32_handled_stage_total :
+  forall s msg, stage_mapper_impl s <> NoMap -> is_vtl (apply_mapper (stage_mapper_impl s) (RawDB msg)) = true.
+Proof. exact handled_stage_total. Qed.
+
+(* FAITHFUL, closed: whatever the stages raise, as long as raw DuckDB errors come only from handled stages (statement
+   execution, fetch, save, insert, normalise) and everything else raised is already a VTL error, run() — of any shape —
+   raises only VTL errors *)
+Theorem C32_run_impl_closed :
+  forall (R : stage -> exn -> Prop),
+  (forall s e, R s e -> is_vtl e = true \/ exists msg, e = RawDB msg /\ stage_mapper_impl s <> NoMap) ->
+  forall stmts final e, exec R (run_prog stage_mapper_impl stmts final) (Raise e) -> is_vtl e = true.
+Proof.
+  intros R H. apply run_closed. intros s e He. destruct (H s e He) as [Hv | [msg [-> Hs]]].
+  - apply apply_mapper_keeps_vtl. exact Hv.
+  - apply handled_stage_total. exact Hs.
+Qed.
+
 (* raisable sets = everything known to be raisable per stage: the macro literals and the raw DuckDB messages observed *)
 Definition raisable_tab : list (stage * string) := map lit_entry macro_lits ++ observed_raw.
 
@@ -84,13 +101,23 @@ Proof.
   apply run_closed. apply table_stage_ok. vm_compute. reflexivity.
 Qed.
 
-(* FAITHFUL pipeline, refuted: a one-statement run in which a table entry escapes as a non-VTL error *)
+(* FAITHFUL pipeline, still refuted: a one-statement run in which a table entry of an UNHANDLED stage (the loader's CREATE TABLE:
+   Catalog Error for component / dataset names equal up to case) escapes as a non-VTL error *)
 Theorem C32_run_impl_escape_refuted :
   exists e, exec (R_of raisable_tab) (run_prog stage_mapper_impl one_stmt 0) (Raise e) /\ is_vtl e = false.
 Proof.
   assert (H : existsb (fun x => negb (entry_ok stage_mapper_impl x)) raisable_tab = true) by (vm_compute; reflexivity).
   apply existsb_exists in H. destruct H as [[s msg] [Hin Hbad]]. apply negb_true_iff in Hbad.
   exact (unmapped_entry_escapes stage_mapper_impl raisable_tab s msg Hin Hbad).
+Qed.
+
+(* every table entry that still escapes sits in a stage without handler *)
+Theorem C32_run_impl_escapes_only_unhandled :
+  forall s msg, In (s, msg) raisable_tab -> entry_ok stage_mapper_impl (s, msg) = false -> stage_mapper_impl s = NoMap.
+Proof.
+  intros s msg _ Hbad. destruct (stage_mapper_impl s) eqn:E; try reflexivity;
+    exfalso; unfold entry_ok in Hbad; cbn [fst snd] in Hbad;
+    rewrite (handled_stage_total s msg) in Hbad; try discriminate; rewrite E; discriminate.
 Qed.
 
 (* FAITHFUL pipeline, partial: restricted to the raisable entries its handlers do map, every run shape raises only VTL errors *)
@@ -103,12 +130,24 @@ Proof.
   unfold mapped_part. apply forallb_forall. intros x Hx. apply filter_In in Hx. exact (proj2 Hx).
 Qed.
 
+(* REGRESSION WITNESS: before the fix the statement-execution / fetch entries of the table escaped too *)
+Theorem C32_run_before_fix_escape_refuted :
+  exists s msg, In (s, msg) raisable_tab /\ stage_mapper_impl s <> NoMap /\ entry_ok stage_mapper_before_fix (s, msg) = false.
+Proof.
+  assert (H : existsb (fun x => negb (mapper_eqb (stage_mapper_impl (fst x)) NoMap) && negb (entry_ok stage_mapper_before_fix x)) raisable_tab = true)
+    by (vm_compute; reflexivity).
+  apply existsb_exists in H. destruct H as [[s msg] [Hin Hb]]. cbn [fst] in Hb.
+  apply andb_true_iff in Hb. destruct Hb as [Hm Hbad]. apply negb_true_iff in Hm, Hbad.
+  exists s, msg. split; [exact Hin|]. split; [|exact Hbad]. intros E. rewrite E in Hm. discriminate.
+Qed.
+
 (* non-vacuity: there are literals, rows, both mapped and unmapped entries; the hypotheses of run_closed are satisfiable *)
 Example C32_nonvacuous :
   Nat.leb 10 (length macro_lits) = true /\ Nat.leb 100 (length map_table) = true /\
   existsb (entry_ok stage_mapper_impl) raisable_tab = true /\
   map_query "Invalid Input Error: VTL 2-1-15-6: Scalar division by Zero" = Mapped KRuntime "2-1-15-6" /\
-  map_query "Out of Range Error: Overflow in addition of INT64" = Unmapped /\
+  map_query "Out of Range Error: Overflow in addition of INT64" = Mapped KRuntime "2-1-1-1" /\
+  map_query_before_fix "Out of Range Error: Overflow in addition of INT64" = Unmapped /\
   exec (R_of raisable_tab) (run_prog stage_mapper_spec one_stmt 0) Done.
 Proof.
   repeat split; try (vm_compute; reflexivity).
@@ -126,12 +165,16 @@ Qed.
 Print Assumptions C32_model_is_code.
 Print Assumptions C32_model_is_code_pointwise.
 Print Assumptions C32_stage_flags_model_is_code.
+Print Assumptions C32_mapped_macro_errors_impl.
 Print Assumptions C32_mapped_macro_errors_spec.
-Print Assumptions C32_mapped_macro_errors_impl_partial.
-Print Assumptions C32_mapped_macro_errors_impl_refuted.
-Print Assumptions C32_mapped_macro_errors_impl_norule_refuted.
+Print Assumptions C32_mapped_macro_errors_before_fix_refuted.
+Print Assumptions C32_mapped_macro_errors_before_fix_norule_refuted.
 Print Assumptions C32_escape_closed.
 Print Assumptions C32_run_closed.
+Print Assumptions C32_handled_stage_total.
+Print Assumptions C32_run_impl_closed.
 Print Assumptions C32_run_spec_closed.
 Print Assumptions C32_run_impl_escape_refuted.
+Print Assumptions C32_run_impl_escapes_only_unhandled.
 Print Assumptions C32_run_impl_partial.
+Print Assumptions C32_run_before_fix_escape_refuted.
